@@ -7,10 +7,7 @@ package server
 
 import (
 	"bytes"
-	"context"
 	"encoding/json"
-	"log/slog"
-	"sync"
 	"fmt"
 	"os"
 	"reflect"
@@ -78,19 +75,30 @@ func c11Internal(r *Router) map[string]string {
 	return out
 }
 
-// c11Behaviour exercises the option-dependent behaviour of every running service.
-func c11Behaviour(w *vfWorld, r *Router, m *vfModel) map[string]string {
-	out := map[string]string{}
+// c11Obs is one request of the behaviour suite with what came back and what the proxy logged about it.
+type c11Obs struct {
+	Key  string // <service>/<kind>[-<n>]
+	Svc  string
+	Kind string // get abort post resp slow
+	N    int
+	Resp *vfResp
+	Log  []map[string]string
+	TLS  bool
+	Path string // the path asked for (without the query)
+}
+
+// c11Observe exercises the option-dependent behaviour of every running service.
+// The requests enter through the server's own handler chain (error pages, logging, request id) as built by the code;
+// tag tells the records of two proxies observed at the same time apart.
+func c11Observe(w *vfWorld, r *Router, m *vfModel, tag string) []*c11Obs {
 	type job struct {
-		key  string
+		obs  *c11Obs
 		pend *vfPending
-		svc  string
 		seq  int
 	}
 	var jobs []job
-	// each proxy gets its own access log: what it records about a request is part of what it does
-	sink := &c11LogSink{}
-	logged := WithLoggingMiddleware(slog.New(sink), 80, 443, r)
+	logged := NewServer(&Config{HttpPort: 80, HttpsPort: 443}, r).buildHandler()
+	mark := len(w.logsCopy())
 	seq := 0
 	for _, name := range vfSortedKeys(m.Svcs) {
 		s := m.Svcs[name]
@@ -103,10 +111,11 @@ func c11Behaviour(w *vfWorld, r *Router, m *vfModel) map[string]string {
 		}
 		tlsOn, _ := m.effTLS(s)
 		prefix := s.Spec.normPrefixes()[len(s.Spec.normPrefixes())-1]
-		path := strings.TrimSuffix(prefix, "/") + "/deep/er?x=1;y"
-		mk := func(method string, ctl *vfCtl, body []byte) *vfPending {
+		bare := strings.TrimSuffix(prefix, "/") + "/deep/er"
+		path := bare + "?x=1;y"
+		add := func(kind string, n int, method string, ctl *vfCtl, body []byte) {
 			seq++
-			req := vfNewRequest(method, host, fmt.Sprintf("%s&job=%d", path, seq), ctl, body)
+			req := vfNewRequest(method, host, fmt.Sprintf("%s&job=%s%d", path, tag, seq), ctl, body)
 			req.Header.Set("X-Custom", "custom-value")
 			req.Header.Set("Accept", "text/vf")
 			req.Header.Set("User-Agent", "vf-agent")
@@ -116,69 +125,79 @@ func c11Behaviour(w *vfWorld, r *Router, m *vfModel) map[string]string {
 			}
 			req.Header.Set("X-Forwarded-For", "203.0.113.9")
 			req.Header.Set("X-Forwarded-Proto", "gopher")
-			return w.goDo(logged, req)
+			key := name + "/" + kind
+			if kind != "get" && kind != "abort" {
+				key = fmt.Sprintf("%s-%d", key, n)
+			}
+			jobs = append(jobs, job{&c11Obs{Key: key, Svc: name, Kind: kind, N: n, TLS: tlsOn, Path: bare}, w.goDo(logged, req), seq})
 		}
-		jobs = append(jobs, job{name + "/get", mk("GET", &vfCtl{}, nil), name, seq})
-		jobs = append(jobs, job{name + "/abort", mk("GET", &vfCtl{Abort: true}, nil), name, seq})
+		add("get", 0, "GET", &vfCtl{}, nil)
+		add("abort", 0, "GET", &vfCtl{Abort: true}, nil)
 		for _, n := range []int{9, 10, 11, 100, 101, 5000, 5001} {
-			jobs = append(jobs, job{fmt.Sprintf("%s/post-%d", name, n), mk("POST", &vfCtl{}, bytes.Repeat([]byte("b"), n)), name, seq})
-			jobs = append(jobs, job{fmt.Sprintf("%s/resp-%d", name, n), mk("GET", &vfCtl{Size: n}, nil), name, seq})
+			add("post", n, "POST", &vfCtl{}, bytes.Repeat([]byte("b"), n))
+			add("resp", n, "GET", &vfCtl{Size: n}, nil)
 		}
 		for _, d := range []int{499, 501, 1999, 2001, 9999, 10001, 29999, 30001} {
-			jobs = append(jobs, job{fmt.Sprintf("%s/slow-%d", name, d), mk("GET", &vfCtl{DurMs: d}, nil), name, seq})
+			add("slow", d, "GET", &vfCtl{DurMs: d}, nil)
 		}
 	}
+	var out []*c11Obs
 	for _, j := range jobs {
 		<-j.pend.done
-		rp := j.pend.resp
+		j.obs.Resp = j.pend.resp
+		out = append(out, j.obs)
+	}
+	// (the logging middleware writes its record before the handler returns to the caller)
+	logs := w.logsCopy()[mark:]
+	for _, j := range jobs {
+		for _, l := range logs {
+			if l.Msg != "Request" || !strings.HasSuffix(fmt.Sprint(l.Attrs["query"]), fmt.Sprintf("&job=%s%d", tag, j.seq)) {
+				continue
+			}
+			rec := map[string]string{}
+			for k, v := range l.Attrs {
+				rec[k] = fmt.Sprint(v)
+			}
+			rec["query"] = strings.TrimSuffix(rec["query"], fmt.Sprintf("%s%d", tag, j.seq))
+			rec["request_id"] = fmt.Sprint(rec["request_id"] != "")
+			j.obs.Log = append(j.obs.Log, rec)
+		}
+	}
+	return out
+}
+
+// c11Behaviour renders the observations for comparison between two proxies (rotation position is free: the
+// target is replaced by the slot it fills in its service).
+func c11Behaviour(w *vfWorld, r *Router, m *vfModel, tag string) map[string]string {
+	out := map[string]string{}
+	for _, o := range c11Observe(w, r, m, tag) {
+		rp := o.Resp
 		v := fmt.Sprintf("status=%d took=%v", rp.Status, rp.End-rp.Start)
 		if rp.Status == 200 && rp.Target != "" {
-			v += " slot=" + c11SlotOf(m, j.svc, rp.Target)
-			if strings.HasSuffix(j.key, "/get") {
+			v += " slot=" + c11SlotOf(m, o.Svc, rp.Target)
+			if o.Kind == "get" {
 				body := string(rp.Body)
-				v += " uri=" + c11Field(body, "uri") + " xff=" + c11Field(body, "X-Forwarded-For") + " xfp=" + c11Field(body, "X-Forwarded-Proto")
+				uri := c11Field(body, "uri")
+				for _, sep := range []string{"&job=", "\\u0026job="} {
+					if i := strings.Index(uri, sep); i >= 0 {
+						uri = uri[:i]
+					}
+				}
+				v += " uri=" + uri + " xff=" + c11Field(body, "X-Forwarded-For") + " xfp=" + c11Field(body, "X-Forwarded-Proto")
 			}
 		}
 		if rp.Status != 200 {
 			v += " body=" + c06BodyDigest(rp)
 		}
-		out["behaviour/"+j.key] = v
-		out["log/"+j.key] = sink.render(j.seq, func(target string) string { return c11SlotOf(m, j.svc, target) })
+		out["behaviour/"+o.Key] = v
+		out["log/"+o.Key] = c11RenderLog(o.Log, func(target string) string { return c11SlotOf(m, o.Svc, target) })
 	}
 	return out
 }
 
-// c11LogSink collects the access-log records of one proxy.
-type c11LogSink struct {
-	mu   sync.Mutex
-	recs []map[string]string
-}
-
-func (h *c11LogSink) Enabled(context.Context, slog.Level) bool { return true }
-func (h *c11LogSink) WithAttrs([]slog.Attr) slog.Handler        { return h }
-func (h *c11LogSink) WithGroup(string) slog.Handler             { return h }
-func (h *c11LogSink) Handle(_ context.Context, r slog.Record) error {
-	rec := map[string]string{"msg": r.Message}
-	r.Attrs(func(a slog.Attr) bool {
-		rec[a.Key] = a.Value.String()
-		return true
-	})
-	h.mu.Lock()
-	h.recs = append(h.recs, rec)
-	h.mu.Unlock()
-	return nil
-}
-
-// render gives the records written for request number seq (there must be exactly one), the target replaced by
-// the slot it fills in its service.
-func (h *c11LogSink) render(seq int, slot func(string) string) string {
-	h.mu.Lock()
-	defer h.mu.Unlock()
+func c11RenderLog(recs []map[string]string, slot func(string) string) string {
 	var out []string
-	for _, rec := range h.recs {
-		if !strings.HasSuffix(rec["query"], fmt.Sprintf("&job=%d", seq)) {
-			continue
-		}
+	for _, rec := range recs {
 		var kv []string
 		for _, k := range vfSortedKeys(rec) {
 			v := rec[k]
@@ -251,8 +270,8 @@ func c11Compare(w *vfWorld, a, b *Router, m *vfModel, res *vfResult, ctx string,
 		// run both behaviour suites concurrently so that both see the same virtual instants
 		var ba, bb map[string]string
 		done := make(chan struct{}, 2)
-		go func() { ba = c11Behaviour(w, a, m); done <- struct{}{} }()
-		go func() { bb = c11Behaviour(w, b, m); done <- struct{}{} }()
+		go func() { ba = c11Behaviour(w, a, m, "a"); done <- struct{}{} }()
+		go func() { bb = c11Behaviour(w, b, m, "b"); done <- struct{}{} }()
 		<-done
 		<-done
 		for k, v := range ba {
